@@ -3,12 +3,14 @@ import Driver.Attrs
 import Driver.AgentD
 import Driver.HmacD
 import Driver.UriD
+import Driver.ClientD
 open Stun.Driver
 
 structure DState where
   codec : CState := {}
   agent : Stun.Agent := {}
   hm : HState := {}
+  client : Stun.Client := {}
 
 def step (s : DState) (line : String) : DState × String :=
   let toks := (line.splitOn " ").filter (· ≠ "")
@@ -30,6 +32,9 @@ def step (s : DState) (line : String) : DState × String :=
     | none =>
     match stepUri toks with
     | some out => (s, out)
+    | none =>
+    match stepClient s.client toks with
+    | some (c, out) => ({ s with client := c }, out)
     | none => (s, "bad-op")
 
 partial def loop (hin hout : IO.FS.Stream) (s : DState) : IO Unit := do
